@@ -36,7 +36,7 @@ type replayFile struct {
 }
 
 func genScenarios(tier string) []scenario {
-	kinds := []certKind{kProper, kProperBoth, kExpired, kNotYet, kServerOnly, kIssuerCA, kIssuerTenant, kSelfIssuerTenant, kCNNotBech32, kCNOtherPrefix}
+	kinds := []certKind{kProper, kProperBoth, kExpired, kNotYet, kServerOnly, kIssuerCA, kIssuerTenant, kSelfIssuerTenant, kMultiCNOtherFirst, kMultiCNTenantFirst, kExtraRDNBefore, kExtraRDNAfter, kCNNotBech32, kCNOtherPrefix}
 	bgs := [][2]bool{{false, false}, {true, true}}
 	serials := []string{"4242"}
 	if tier == "thorough" {
@@ -48,6 +48,9 @@ func genScenarios(tier string) []scenario {
 		entries := []chainEntry{chAbsent, chSameValid, chSameRevoked, chOtherValid, chOtherRevoked}
 		if !cnIsAccount(k) {
 			entries = []chainEntry{chAbsent} // the chain refuses certificates whose CN is not the owner's address
+		}
+		if k == kMultiCNTenantFirst {
+			entries = []chainEntry{chAbsent, chSameValid} // same-valid = the registration is ATTEMPTED through the real msg server
 		}
 		for t := 0; t < 2; t++ {
 			for _, e := range entries {
@@ -163,6 +166,9 @@ func doReplay(path string) int {
 
 func seqCost(q sequence) int {
 	c := 10 * len(q.Steps)
+	if q.TimeFamily == "both" {
+		c += 5
+	}
 	for _, o := range q.Ops {
 		if o != opNone {
 			c++
@@ -227,7 +233,7 @@ func run(tier string) int {
 		ch <- i
 	}
 	close(ch)
-	var seqDone, seqEvals, seqSteps, seqResumed int64
+	var seqDone, seqEvals, seqSteps, seqResumed, timeSteps, timeUnjudged int64
 	var seqSample *sequenceResult
 	workers := runtime.NumCPU()
 	if workers > 8 {
@@ -257,6 +263,12 @@ func run(tier string) int {
 					for _, st := range res.Steps {
 						seqSteps++
 						seqResumed += int64(st.Resumed)
+						if q.TimeFamily != "" {
+							timeSteps++
+							if st.Unjudged {
+								timeUnjudged++
+							}
+						}
 						cases := len(st.Outcomes) + 1
 						evals += int64(cases)
 						seqEvals += int64(cases)
@@ -276,6 +288,8 @@ func run(tier string) int {
 							}
 						}
 						switch {
+						case st.Unjudged:
+							dontCare += int64(cases)
 						case st.Strict:
 							acceptExp += int64(cases)
 						case !st.Sound:
@@ -330,9 +344,9 @@ func run(tier string) int {
 						raw, _ := json.Marshal([]interface{}{sc, oc.Request})
 						distinct[string(raw)] = true
 						switch {
-						case sc.strict():
+						case res.Strict:
 							acceptExp++
-						case !sc.sound():
+						case !res.Sound:
 							rejectExp++
 						default:
 							dontCare++
@@ -353,9 +367,9 @@ func run(tier string) int {
 				if sc.Present != prNone {
 					raw, _ := json.Marshal([]interface{}{sc, "VerifyPeerCertificate"})
 					distinct[string(raw)] = true
-					if sc.strict() {
+					if res.Strict {
 						acceptExp++
-					} else if !sc.sound() {
+					} else if !res.Sound {
 						rejectExp++
 					} else {
 						dontCare++
@@ -409,12 +423,12 @@ func run(tier string) int {
 			"scenario": r.Scenario, "presented_cn": r.PresentedCN, "chain_msgs": r.ChainLog,
 			"verify_peer_certificate_accepts": r.DirectOK, "verify_peer_certificate_error": r.DirectErr,
 			"request": oc.Request, "url": oc.Request.url("", false), "status": oc.Status, "error": oc.Err, "calls_reaching_provider": oc.Calls,
-			"oracle": map[string]bool{"sound": r.Scenario.sound(), "must_accept": r.Scenario.strict()},
+			"oracle": map[string]bool{"sound": r.Sound, "must_accept": r.Strict},
 		})
 	}
 	scoped := func(oc outcome) bool { return routeTable[oc.Request.Route].Scope != "" }
 	for _, r := range sampleResults { // one genuine holder, one forgery, then a rotating one
-		if r.Scenario.strict() && r.Scenario.Kind == kProper {
+		if r.Strict && r.Scenario.Kind == kProper {
 			mkSample(r, scoped, 0)
 			break
 		}
@@ -490,7 +504,7 @@ func run(tier string) int {
 				"%d scenarios = certificate kind x tenant{A,B} x chain entry under (CN,serial){absent, same DER valid, same DER revoked, other DER valid (=presented one is a forgery), other DER revoked} "+
 				"x background{other tenant holds the same serial, same owner holds another serial} x presentation{single, leaf+extra} x serial%s + no-certificate scenarios; "+
 				"each scenario = one direct VerifyPeerCertificate call + %d requests over real TLS 1.3 (every route of newRouter found by mux.Walk x dseq{own, other tenant's, non-numeric, uint64 overflow%s} x query{none, owner/provider/dseq naming the other tenant}). "+
-				"SEQUENCES on one gateway instance (one rest.NewServer / TLS config / chain): %d = every ordered pair%s of %d presentables {genuine, genuine other serial, other tenant's genuine, registered-but-expired/server-auth/not-yet-valid, registered self-signed whose issuer field names the other tenant, forgeries copying CN+serial (proper, expired, server-auth, CA-issued, foreign issuer name), forged other serial, unknown serial, forged other tenant, CN no account, no certificate} x op before the second step{none, revoke genuine, revoke other tenant's genuine} x role{A,B}; plus every presentable shown twice by a client that keeps a TLS session cache (so the second connection RESUMES the session) x the same ops and roles; every step = 3 TLS requests + one callback call, judged by the same oracle as in isolation against the chain state at that moment. "+
+				"SEQUENCES on one gateway instance (one rest.NewServer / TLS config / chain): %d = every ordered pair%s of %d presentables {genuine, genuine other serial, other tenant's genuine, registered-but-expired/server-auth/not-yet-valid, registered self-signed whose issuer field names the other tenant, forgeries copying CN+serial (proper, expired, server-auth, CA-issued, foreign issuer name), forged other serial, unknown serial, forged other tenant, CN no account, no certificate} x op before the second step{none, revoke genuine, revoke other tenant's genuine} x role{A,B}; plus 6 TIME-CROSSING sequences (a registered certificate whose NotAfter / NotBefore lies 3-4 s after the gateway was built is presented at once and again 1.5 s past the boundary; a step is judged only if the clock readings before and after it are on the same side of the boundary by 0.5 s, else counted unconstrained); plus every presentable shown twice by a client that keeps a TLS session cache (so the second connection RESUMES the session) x the same ops and roles; every step = 3 TLS requests + one callback call, judged by the same oracle as in isolation against the chain state at that moment. "+
 				"The chain is the real x/cert keeper written through the real msg server and read through the real gRPC querier; scope is judged against the account that published the certificate (subject CN). "+
 				"A case (scenario, request or callback) is non-trivial when a client certificate is presented and the route is lease/deployment-scoped (the authentication decision matters); distinct = set of canonical JSON encodings. "+
 				"Oracle classes (non-trivial cases): must-accept=%d, must-reject=%d, left-to-implementation=%d; observed reached-provider=%d, refused=%d.",
@@ -500,23 +514,25 @@ func run(tier string) int {
 			Samples:    samples,
 			Exhaustive: exhaustive,
 			Extra: map[string]interface{}{
-				"scenarios":                    len(scs),
-				"sequences":                    len(seqs),
-				"sequences_run":                seqDone,
-				"sequence_steps":               seqSteps,
-				"sequence_connections_resumed": seqResumed,
-				"sequence_evaluations":         seqEvals,
-				"scenarios_run":                done,
-				"routes":                       routes,
-				"oracle_must_accept":           acceptExp,
-				"oracle_must_reject":           rejectExp,
-				"oracle_unconstrained":         dontCare,
-				"observed_accept":              acceptObs,
-				"observed_reject":              rejectObs,
-				"direct_callback_calls":        directCalls,
-				"real_querier_calls":           queries,
-				"violation_signatures":         sigSummary,
-				"workers":                      workers,
+				"scenarios":                              len(scs),
+				"sequences":                              len(seqs),
+				"sequences_run":                          seqDone,
+				"sequence_steps":                         seqSteps,
+				"sequence_connections_resumed":           seqResumed,
+				"time_crossing_steps":                    timeSteps,
+				"time_crossing_steps_left_unconstrained": timeUnjudged,
+				"sequence_evaluations":                   seqEvals,
+				"scenarios_run":                          done,
+				"routes":                                 routes,
+				"oracle_must_accept":                     acceptExp,
+				"oracle_must_reject":                     rejectExp,
+				"oracle_unconstrained":                   dontCare,
+				"observed_accept":                        acceptObs,
+				"observed_reject":                        rejectObs,
+				"direct_callback_calls":                  directCalls,
+				"real_querier_calls":                     queries,
+				"violation_signatures":                   sigSummary,
+				"workers":                                workers,
 			},
 		},
 		Assumptions: []string{
@@ -534,7 +550,7 @@ func run(tier string) int {
 		fmt.Fprintln(os.Stderr, "machinery: evidence:", err)
 		return 2
 	}
-	fmt.Printf("C09 %s: sequences=%d (steps %d, evaluations %d, resumed TLS connections %d); ", tier, len(seqs), seqSteps, seqEvals, seqResumed)
+	fmt.Printf("C09 %s: sequences=%d (steps %d, evaluations %d, resumed TLS connections %d, time-crossing steps %d of which unconstrained %d); ", tier, len(seqs), seqSteps, seqEvals, seqResumed, timeSteps, timeUnjudged)
 	fmt.Printf("scenarios=%[2]d evaluations=%[3]d distinct_nontrivial=%d must-accept=%d must-reject=%d unconstrained=%d observed accept=%d reject=%d exhaustive=%v signatures=%d wall=%.1fs\n",
 		tier, len(scs), evals, len(distinct), acceptExp, rejectExp, dontCare, acceptObs, rejectObs, exhaustive, len(sigs), time.Since(start).Seconds())
 	return exit
